@@ -228,6 +228,11 @@ func genCase(c *h.Ctx, r *h.Rng, idx int) []string {
 	if r.Chance(40) {
 		partialBudget = 1 + r.Intn(3)
 	}
+	// read failures in the middle of a body (connection cut / body_size_limit) in a fraction of the histories
+	readFails := !big && r.Chance(45)
+	if readFails {
+		c.Count("history:with-read-failures")
+	}
 	var prevTs []int64
 	for k := 0; k < nScrapes; k++ {
 		ts += int64(1 + r.Intn(30))
@@ -328,6 +333,10 @@ func genCase(c *h.Ctx, r *h.Rng, idx int) []string {
 		if len(items) == 0 {
 			c.Count("scrape:empty-body")
 		}
+		if readFails && r.Chance(22) {
+			ops = append(ops, genRead(c, r, ts, items))
+			continue
+		}
 		ops = append(ops, strings.TrimSpace(fmt.Sprintf("scrape %d body %s", ts, strings.Join(items, " "))))
 		c.Count("scrape:body")
 	}
@@ -337,4 +346,69 @@ func genCase(c *h.Ctx, r *h.Rng, idx int) []string {
 	}
 	c.Count(fmt.Sprintf("len:%d", (nScrapes/10)*10))
 	return ops
+}
+
+// genRead turns a generated body into a scrape whose body goes through the production readResponse:
+// mostly a read failure after a prefix of the body is in the scrape buffer — cut inside a line (biased
+// towards the last characters of a line, where the truncated line still parses), at a line boundary,
+// after the last line, before any byte — by a failing connection or by body_size_limit; sometimes a
+// body_size_limit that is not exceeded.
+func genRead(c *h.Ctx, r *h.Rng, ts int64, items []string) string {
+	var lens []int
+	total := 0
+	for _, it := range items {
+		line, ok := renderItem(it)
+		if !ok {
+			panic("genRead: unrenderable item " + it)
+		}
+		lens = append(lens, len(line))
+		total += len(line)
+	}
+	tail := ""
+	if len(items) > 0 {
+		tail = " " + strings.Join(items, " ")
+	}
+	if r.Chance(12) {
+		c.Count("scrape:read-under-limit")
+		return fmt.Sprintf("scrape %d read under %d%s", ts, r.Intn(3), tail)
+	}
+	how := "cut"
+	if total > 0 && r.Chance(40) {
+		how = "limit"
+	}
+	pos, kind := 0, "zero"
+	if total > 0 {
+		switch k := r.Intn(10); {
+		case k < 4: // inside a line
+			i := r.Intn(len(lens))
+			start := 0
+			for _, l := range lens[:i] {
+				start += l
+			}
+			off := 1 + r.Intn(lens[i]-1)
+			if r.Chance(60) { // the newline or the last 1-2 characters of the value / timestamp are missing
+				off = lens[i] - 1 - r.Intn(min(3, lens[i]-1))
+			}
+			pos, kind = start+off, "inside-line"
+		case k < 7: // at a line boundary (after line i of several), else after the last line
+			i := 1 + r.Intn(len(lens))
+			for _, l := range lens[:i] {
+				pos += l
+			}
+			kind = "line-boundary"
+			if i == len(lens) {
+				kind = "after-last-line"
+			}
+		case k < 9:
+			pos, kind = total+r.Intn(2)*r.Intn(50), "after-last-line"
+		default:
+			pos, kind = 0, "zero"
+		}
+	}
+	if how == "limit" && pos < 1 {
+		how = "cut"
+	}
+	c.Count("scrape:read-fail:" + how)
+	c.Count("scrape:read-fail:" + kind)
+	return fmt.Sprintf("scrape %d read %s %d%s", ts, how, pos, tail)
 }
